@@ -116,6 +116,19 @@ def reporter_group(p):
     return find(p)
 
 
+BUDGET = 1
+
+
+def job_retry(i):
+    """second pass for 'unknown' (a loaded machine): 8x the time limits, run with fewer processes."""
+    global BUDGET
+    BUDGET = 8
+    try:
+        return job(i)
+    finally:
+        BUDGET = 1
+
+
 def job(i):
     st = setup()
     e = st["exts"][i]
@@ -143,7 +156,7 @@ def job(i):
         left = z3.Union(rex.lit(rex.BOS), z3.Concat(rex.lit(rex.BOS), rex.sigma_star(), nonalnum))
         right = z3.Union(rex.lit(rex.EOS), z3.Concat(nonalnum, rex.sigma_star(), rex.lit(rex.EOS)))
         form = z3.Concat(left, mid, right)
-        v, w = rex.solve_in(z3.Intersect(form, z3.Complement(rex.search_lang(R))), timeout_ms=60000, seed=common.seed())
+        v, w = rex.solve_in(z3.Intersect(form, z3.Complement(rex.search_lang(R))), timeout_ms=60000 * BUDGET, seed=common.seed())
         out["recognise"] = v
         if v == "sat":
             out["witness"] = ("recognise", rex.strip_sentinels(w))
@@ -156,9 +169,9 @@ def job(i):
         G = rex.tr(sub, e.flags)
         listed = [rex.lit(s) for s in e.strings]
         listed = listed[0] if len(listed) == 1 else z3.Union(*listed)
-        v2, w2 = rex.solve_in(z3.Intersect(G, z3.Complement(listed)), timeout_ms=60000, seed=common.seed())
+        v2, w2 = rex.solve_in(z3.Intersect(G, z3.Complement(listed)), timeout_ms=60000 * BUDGET, seed=common.seed())
         if v2 == "unsat":
-            v2, w2 = rex.solve_in(z3.Intersect(listed, z3.Complement(G)), timeout_ms=60000, seed=common.seed())
+            v2, w2 = rex.solve_in(z3.Intersect(listed, z3.Complement(G)), timeout_ms=60000 * BUDGET, seed=common.seed())
         out["exact"] = v2
         if v2 == "sat":
             out["witness"] = ("exact", rex.z3_unescape(w2))
@@ -305,6 +318,13 @@ def check(rep):
     res, err = common.pmap(job, sample, timeout=3000, chunk=8)
     if err:
         rep.inconc("regex inclusion queries: " + err)
+    again = [r["i"] for r in res if "unknown" in (r["recognise"], r["exact"])]
+    if again:
+        res2, err2 = common.pmap(job_retry, again, procs=6, timeout=3000, chunk=1)
+        if not err2:
+            by = {r["i"]: r for r in res2}
+            res = [by.get(r["i"], r) for r in res]
+        rep.sections["retry_pass"] = {"retried": len(again), "still_unknown": sum(1 for r in res if "unknown" in (r["recognise"], r["exact"]))}
     cnt = {"recognise": {}, "exact": {}}
     for r in res:
         for k in ("recognise", "exact"):
